@@ -1015,9 +1015,9 @@ mod v_iface_sixlowpan {
         tag: u16,
     }
 
-    fn frag_frame(g: &GhostD, which: u8, size: u16, tag: u16, offset: u8) -> [u8; 13] {
-        let sh = (size >> 8) as u8 & 0x07;
-        let sl = size as u8;
+    /// datagram_size < 256 (passed as one octet) keeps the dispatch octet of the frame concrete
+    fn frag_frame(g: &GhostD, which: u8, sl: u8, tag: u16, offset: u8) -> [u8; 13] {
+        let sh = 0u8;
         let th = (tag >> 8) as u8;
         let tl = tag as u8;
         let d = &g.data;
@@ -1557,16 +1557,15 @@ mod v_iface_sixlowpan {
         let r802 = ieee(Some(Ieee802154Address::Extended(g.sll)), Some(Ieee802154Address::Extended(g.dll)));
         let off = |w: u8| if w == 1 { 6u8 } else { 7u8 };
         let w3 = 3 - w1 - w2;
-        let (d1, _, _) = rx_feed(inner, fragments, &r802, &frag_frame(&g, w1, GD as u16, g.tag, off(w1)));
-        let (d2, _, _) = rx_feed(inner, fragments, &r802, &frag_frame(&g, w2, GD as u16, g.tag, off(w2)));
+        let (d1, _, _) = rx_feed(inner, fragments, &r802, &frag_frame(&g, w1, GD as u8, g.tag, off(w1)));
+        let (d2, _, _) = rx_feed(inner, fragments, &r802, &frag_frame(&g, w2, GD as u8, g.tag, off(w2)));
         assert!(!d1 && !d2, "prop:c20_incomplete_datagram_not_delivered");
         // the step
         let tag: u16 = kani::any();
-        let size: u16 = kani::any();
+        // (datagram sizes above the 256-octet reassembly buffer are refused by `set_total_size`)
+        let size8: u8 = kani::any();
+        let size = size8 as u16;
         let offset: u8 = kani::any();
-        // (datagram sizes above the 256-octet reassembly buffer are refused by `set_total_size`; < 256 keeps the
-        // dispatch octet of the frame concrete)
-        kani::assume(size < 256);
         let genuine = tag == g.tag && size == GD as u16;
         if genuine {
             kani::assume(offset == off(kind));
@@ -1574,7 +1573,7 @@ mod v_iface_sixlowpan {
             // smaller FRAG1 sizes: finding of lowpan_frag_rx_free (subtraction overflow)
             kani::assume(size >= 48);
         }
-        let (ds, ns, cs) = rx_feed(inner, fragments, &r802, &frag_frame(&g, kind, size, tag, offset));
+        let (ds, ns, cs) = rx_feed(inner, fragments, &r802, &frag_frame(&g, kind, size8, tag, offset));
         if genuine {
             assert!(ds == (kind == w3), "prop:c20_delivered_exactly_when_complete_in_any_order");
             if ds {
@@ -1586,7 +1585,7 @@ mod v_iface_sixlowpan {
         }
         // the slot of the datagram in progress is intact: the missing fragment completes it
         if !(genuine && kind == w3) {
-            let (df, nf, cf) = rx_feed(inner, fragments, &r802, &frag_frame(&g, w3, GD as u16, g.tag, off(w3)));
+            let (df, nf, cf) = rx_feed(inner, fragments, &r802, &frag_frame(&g, w3, GD as u8, g.tag, off(w3)));
             assert!(df, "prop:c20_foreign_or_duplicate_fragment_does_not_disturb_reassembly");
             if df {
                 assert_is_ghost(&g, nf, &cf);
